@@ -39,7 +39,7 @@ KINDS = ['rand_bytes', 'trunc_pickle', 'flip_pickle', 'pickle_nondict',
          'chained_cb',
          'handler_raises_disconnect', 'listen_raises', 'bad_pickle_class',
          'remote_ops_unknown', 'valid_emit', 'dict_raw', 'str_raw',
-         'json_bytes_emit']
+         'json_bytes_emit', 'handler_emits_disconnect']
 
 
 REDIS_JUNK = ['rand_bytes', 'trunc_pickle', 'flip_pickle', 'pickle_nondict',
@@ -409,13 +409,21 @@ def _run(case, cfg, w):
     bus = SimBus(w, lags=[(0.0,), (0.0, 0.01, 0.1)][cfg['lag']])
     Mgr = AsyncSimPubSubManager if is_async else SimPubSubManager
     hosts = []
-    raise_next = {'disconnect': False}
+    raise_next = {'disconnect': False, 'emit': False}
 
     def plan(label, args, ev):
         if label[3] == 'disconnect' and raise_next['disconnect']:
             raise_next['disconnect'] = False
             rec.count('fault.handler_raise.disconnect')
             return [('raise', RuntimeError('injected'))]
+        if label[3] == 'disconnect' and raise_next['emit']:
+            # the disconnect handler, running inside the listener, uses the
+            # manager again: the usual "user left" broadcast (which goes to
+            # the very channel the listener reads)
+            raise_next['emit'] = False
+            rec.count('app.emit_from_listener')
+            me = w.servers[label[0]]
+            return [('do', lambda: me.emit('left', args[0])), ('ret', None)]
         return [('ret', None)]
     for h in range(cfg['nhosts']):
         name = 'h%d' % h
@@ -424,7 +432,8 @@ def _run(case, cfg, w):
                            async_handlers=True)
         for evn in ('connect', 'disconnect'):
             srv.on(evn, w.make_handler((name, 'func', '/', evn), plan,
-                                       coroutine=False))
+                                       coroutine=is_async and
+                                       evn == 'disconnect'))
         srv.manager_initialized = True
         if is_async:
             w.call(_ainit, m)
@@ -520,6 +529,16 @@ def _run(case, cfg, w):
             sc.open(name, server='h0')
             vs = sc.connect(name, '/')
             raise_next['disconnect'] = True
+            bus.inject(pickle.dumps({'method': 'disconnect', 'sid': vs,
+                                     'namespace': '/',
+                                     'host_id': 'foreign'}))
+            nontrivial = True
+        elif kind == 'handler_emits_disconnect':
+            victims += 1
+            name = 'victim%d' % victims
+            sc.open(name, server='h0')
+            vs = sc.connect(name, '/')
+            raise_next['emit'] = True
             bus.inject(pickle.dumps({'method': 'disconnect', 'sid': vs,
                                      'namespace': '/',
                                      'host_id': 'foreign'}))
